@@ -7,14 +7,18 @@ package main
 // name.  The kernel re-runs Client/Init.new_store on the same inputs (Corr/Run_C10.v).
 
 import (
+	"bytes"
 	"context"
 	"crypto/sha256"
 	"encoding/base64"
 	"encoding/json"
 	"errors"
 	"fmt"
+	"io"
 	"math/rand/v2"
+	"net/http"
 	"os"
+	"path"
 	"path/filepath"
 	"sort"
 	"strconv"
@@ -59,6 +63,10 @@ type c10Ans struct {
 	Ver   uint32 `json:"ver,omitempty"` // 0 = the request fails
 	Val   int    `json:"val,omitempty"`
 	Err   string `json:"err,omitempty"` // notfound | denied | other
+	// client=http: what the scripted HTTP transport does with the request: "200" (JSON api.SecretValue of Ver/Val),
+	// "404", "403", "500", "304", "garbage" (200 with an undecodable body), "hang" (accepts the request and never
+	// answers: the call lasts until the REQUEST's context ends)
+	HTTP string `json:"http,omitempty"`
 }
 
 type c10Script struct {
@@ -85,7 +93,8 @@ type c10ProbeEnt struct {
 type c10Input struct {
 	Client     string        `json:"client"` // none | script | file
 	Names      []string      `json:"names"`
-	Struct     bool          `json:"struct,omitempty"` // two more names declared through a tagged struct
+	PrefixKind int           `json:"prefix_kind,omitempty"` // index into c10Prefixes: how the struct's prefix is spelled
+	Struct     bool          `json:"struct,omitempty"`      // two more names declared through a tagged struct
 	Allow      bool          `json:"allow,omitempty"`
 	Cache      string        `json:"cache"` // none | empty | garbage | doc
 	CacheDoc   []c10CacheEnt `json:"cache_doc,omitempty"`
@@ -103,9 +112,15 @@ type c10Tagged struct {
 	B string `setec:"tb"`
 }
 
-const c10Prefix = "p"
+// spellings of the struct prefix: the declared names are the slash-joined, cleaned names (path.Join), the same
+// ones Fields.Apply looks up - "p/ta", "p/tb" for all spellings but the empty prefix
+var c10Prefixes = []string{"p", "p/", "./p", "p//", ""}
 
-func c10StructNames() []string { return []string{c10Prefix + "/ta", c10Prefix + "/tb"} }
+func c10PrefixOf(in c10Input) string { return c10Prefixes[in.PrefixKind%len(c10Prefixes)] }
+
+func c10StructNames(in c10Input) []string {
+	return []string{path.Join(c10PrefixOf(in), "ta"), path.Join(c10PrefixOf(in), "tb")}
+}
 
 // ---- scripted client ----
 
@@ -144,6 +159,24 @@ func c10Err(kind string) error {
 }
 
 func (c *c10Client) Get(ctx context.Context, name string) (*api.SecretValue, error) {
+	a, err := c.serve(ctx, name)
+	if err != nil {
+		return nil, err
+	}
+	if a.Ver == 0 {
+		return nil, c10Err(a.Err)
+	}
+	return &api.SecretValue{Value: c10Val(a.Val), Version: api.SecretVersion(a.Ver)}, nil
+}
+
+// a hanging request is given up after this much virtual time even if its context never ends, so that a
+// request context detached from the caller's shows as a (very) late return instead of a dead bubble
+const c10HangHorizon = 2 * time.Hour
+
+// serve plays the script for the next request for name under ctx (the caller's context for the scripted
+// client, the HTTP request's context for the transport): waits, logs, and returns the scripted answer or
+// the context's error.
+func (c *c10Client) serve(ctx context.Context, name string) (c10Ans, error) {
 	start := time.Since(c.epoch)
 	c.mu.Lock()
 	if len(c.log) > c10ReqCap {
@@ -165,6 +198,13 @@ func (c *c10Client) Get(ctx context.Context, name string) (*api.SecretValue, err
 	var err error
 	if c.strict && ctx.Err() != nil {
 		err = ctx.Err()
+	} else if a.HTTP == "hang" {
+		select {
+		case <-ctx.Done():
+			err = ctx.Err()
+		case <-time.After(c10HangHorizon):
+			err = errors.New("connection reset (the harness gave up on a hanging request)")
+		}
 	} else if a.LatMs > 0 {
 		select {
 		case <-ctx.Done():
@@ -172,22 +212,56 @@ func (c *c10Client) Get(ctx context.Context, name string) (*api.SecretValue, err
 		case <-time.After(time.Duration(a.LatMs) * time.Millisecond):
 		}
 	}
-	var sv *api.SecretValue
-	if err == nil {
-		if a.Ver == 0 {
-			err = c10Err(a.Err)
-		} else {
-			sv = &api.SecretValue{Value: c10Val(a.Val), Version: api.SecretVersion(a.Ver)}
-		}
-	}
 	r := c10Req{Name: name, Ts: int64(start), Te: int64(time.Since(c.epoch))}
-	if sv != nil {
+	if err == nil && a.Ver != 0 {
 		r.Ver, r.Val = a.Ver, uint64(a.Val)
 	}
 	c.mu.Lock()
 	c.log = append(c.log, r)
 	c.mu.Unlock()
-	return sv, err
+	return a, err
+}
+
+// transport is the scripted HTTP transport under the REAL network client (client/setec/client.go):
+// it answers /api/get at the HTTP level; a request whose context ends gets what net/http reports then.
+func (c *c10Client) transport(req *http.Request) (*http.Response, error) {
+	reply := func(code int, body string) (*http.Response, error) {
+		return &http.Response{StatusCode: code, Status: fmt.Sprintf("%d %s", code, http.StatusText(code)), Header: http.Header{},
+			Body: io.NopCloser(bytes.NewReader([]byte(body)))}, nil
+	}
+	var gr api.GetRequest
+	if req.Body == nil || json.NewDecoder(req.Body).Decode(&gr) != nil || req.URL.Path != "/api/get" || req.Method != "POST" {
+		return reply(400, "bad request")
+	}
+	if gr.UpdateIfChanged { // the probe poll
+		sv, err := c.GetIfChanged(req.Context(), gr.Name, gr.Version)
+		switch {
+		case err == nil:
+			bs, _ := json.Marshal(sv)
+			return reply(200, string(bs))
+		case errors.Is(err, api.ErrValueNotChanged):
+			return reply(304, "")
+		}
+		return reply(404, "not found")
+	}
+	a, err := c.serve(req.Context(), gr.Name)
+	if err != nil {
+		return nil, err
+	}
+	switch a.HTTP {
+	case "200":
+		bs, _ := json.Marshal(&api.SecretValue{Value: c10Val(a.Val), Version: api.SecretVersion(a.Ver)})
+		return reply(200, string(bs))
+	case "404":
+		return reply(404, "not found")
+	case "403":
+		return reply(403, "access denied")
+	case "304":
+		return reply(304, "")
+	case "garbage":
+		return reply(200, "{{{ this is not JSON")
+	}
+	return reply(500, "internal error")
 }
 
 func (c *c10Client) GetIfChanged(ctx context.Context, name string, old api.SecretVersion) (*api.SecretValue, error) {
@@ -363,13 +437,14 @@ type c10Obs struct {
 	POK       bool             `json:"pok,omitempty"`
 	PWrites   [][]c10DocEnt    `json:"pwrites,omitempty"`
 	Vals      map[string]int64 `json:"vals,omitempty"`       // -1 = nil handle
+	Sent      int              `json:"sent,omitempty"`       // which api sentinel the returned error is: 1 not found, 2 access denied, 3 not changed
 	BadHandle string           `json:"bad_handle,omitempty"` // sanity pass: a known name whose handle panics
 }
 
 func c10Declared(in c10Input) []string {
 	names := append([]string(nil), in.Names...)
 	if in.Struct {
-		names = append(names, c10StructNames()...)
+		names = append(names, c10StructNames(in)...)
 	}
 	return names
 }
@@ -430,11 +505,13 @@ func c10Scenario(t *testing.T, in c10Input, work string, idx int, probe bool) (o
 	}
 	var tagged c10Tagged
 	if in.Struct {
-		cfg.Structs = []setec.Struct{{Value: &tagged, Prefix: c10Prefix}}
+		cfg.Structs = []setec.Struct{{Value: &tagged, Prefix: c10PrefixOf(in)}}
 	}
 	switch in.Client {
 	case "script":
 		cfg.Client = cli
+	case "http":
+		cfg.Client = setec.Client{Server: "http://setec.invalid", DoHTTP: cli.transport}
 	case "file":
 		doc := map[string]any{}
 		for _, s := range in.Scripts {
@@ -497,8 +574,27 @@ func c10Scenario(t *testing.T, in c10Input, work string, idx int, probe bool) (o
 		obs.Class = "panic"
 		return obs, &DirectVerdict{OK: false, What: "NewStore panicked, or kept requesting without end (request cap)"}
 	}
+	if in.DeadlineUs >= 0 {
+		// every client used here reacts to the end of its context at once, so the call must be back by then
+		if limit := obs.T0 + in.DeadlineUs*1000; obs.T > limit && obs.T > obs.T0 {
+			obs.Class = "late"
+			if st != nil {
+				st.Close()
+			}
+			return obs, &DirectVerdict{OK: false, What: fmt.Sprintf("NewStore returned %v after its context had ended (context end at +%v, return at +%v)",
+				time.Duration(obs.T-limit), time.Duration(limit-obs.T0), time.Duration(obs.T-obs.T0))}
+		}
+	}
 	if err != nil {
 		obs.Class = "err"
+		switch {
+		case errors.Is(err, api.ErrNotFound):
+			obs.Sent = 1
+		case errors.Is(err, api.ErrAccessDenied):
+			obs.Sent = 2
+		case errors.Is(err, api.ErrValueNotChanged):
+			obs.Sent = 3
+		}
 		if st != nil {
 			return obs, &DirectVerdict{OK: false, What: "NewStore returned both a store and an error"}
 		}
@@ -562,7 +658,7 @@ func c10Scenario(t *testing.T, in c10Input, work string, idx int, probe bool) (o
 	}
 	if in.Struct {
 		// the struct fields were populated at construction
-		sn := c10StructNames()
+		sn := c10StructNames(in)
 		obs.Vals["<field A>"] = int64(c10Tok(tagged.A))
 		obs.Vals["<field B>"] = int64(c10Tok([]byte(tagged.B)))
 		_ = sn
@@ -581,8 +677,28 @@ func c10CoqNames(ns []string) string {
 }
 
 func c10CoqAns(a c10Ans) string {
+	if a.HTTP != "" {
+		body := "None"
+		status := a.HTTP
+		switch a.HTTP {
+		case "hang":
+			return "AHang"
+		case "200":
+			body = fmt.Sprintf("(Some (%d,%d))", a.Ver, a.Val)
+		case "garbage":
+			status = "200"
+		}
+		return fmt.Sprintf("AH %d %s %s", a.LatMs*1000000, status, body)
+	}
 	if a.Ver == 0 {
-		return fmt.Sprintf("AF %d", a.LatMs*1000000)
+		kind := 0
+		switch a.Err {
+		case "notfound":
+			kind = 1
+		case "denied":
+			kind = 2
+		}
+		return fmt.Sprintf("AF %d %d", a.LatMs*1000000, kind)
 	}
 	return fmt.Sprintf("A %d %d %d", a.LatMs*1000000, a.Ver, a.Val)
 }
@@ -644,7 +760,7 @@ func c10Coq(in c10Input, obs c10Obs) string {
 	}
 	sb.WriteString(coqList(rp) + " ")
 	if in.Struct {
-		sb.WriteString(c10CoqNames(c10StructNames()) + " ")
+		sb.WriteString(c10CoqNames(c10StructNames(in)) + " ")
 	} else {
 		sb.WriteString("[] ")
 	}
@@ -659,7 +775,7 @@ func c10Coq(in c10Input, obs c10Obs) string {
 	}
 	sb.WriteString(coqList(pp) + " ")
 	if obs.Class != "ok" {
-		fmt.Fprintf(&sb, "(ObsErr %d %s)", obs.T, c10CoqReqs(obs.Reqs))
+		fmt.Fprintf(&sb, "(ObsErr %d %s %d)", obs.T, c10CoqReqs(obs.Reqs), obs.Sent)
 		return sb.String()
 	}
 	docs := func(ds [][]c10DocEnt) string {
@@ -728,6 +844,9 @@ func c10Gen(r *rand.Rand) c10Input {
 	}
 	in.Allow = r.IntN(3) == 0
 	in.Struct = r.IntN(7) == 0
+	if in.Struct && r.IntN(2) == 0 {
+		in.PrefixKind = 1 + r.IntN(len(c10Prefixes)-1)
+	}
 	switch r.IntN(40) {
 	case 0:
 		in.Client = "none"
@@ -738,13 +857,18 @@ func c10Gen(r *rand.Rand) c10Input {
 	case 3, 4:
 		in.Names, in.Struct, in.Allow = nil, false, true
 	}
-	if in.Client != "none" && r.IntN(5) == 0 {
-		in.Client = "file"
+	if in.Client != "none" {
+		switch r.IntN(5) {
+		case 0:
+			in.Client = "file"
+		case 1:
+			in.Client = "http" // the real setec.Client over a scripted HTTP transport
+		}
 	}
 	in.AgeS = c10Pick(r, []int64{0, 0, 1, 30, 100000})
 	in.ProbeDtS = c10Pick(r, []int64{0, 2, 40})
 	in.StartMs = c10Pick(r, []int64{0, 0, 300, 1700})
-	in.Strict = r.IntN(2) == 0 && in.Client == "script"
+	in.Strict = r.IntN(2) == 0 && (in.Client == "script" || in.Client == "http")
 	declared := c10Distinct(c10Declared(in))
 	// cache
 	stamp := func() int64 {
@@ -817,7 +941,7 @@ func c10Gen(r *rand.Rand) c10Input {
 		r.Shuffle(len(in.CacheDoc), func(i, j int) { in.CacheDoc[i], in.CacheDoc[j] = in.CacheDoc[j], in.CacheDoc[i] })
 	}
 	// deadline
-	if r.IntN(20) < 11 {
+	if r.IntN(20) < 11 || (in.Client == "http" && r.IntN(2) == 0) {
 		in.DeadlineUs = c10Pick(r, []int64{0, 500, 1500, 2500, 6500, 14500, 100500, 1000500, 5000500, 9000500, 20000500})
 	}
 	// scripts
@@ -850,6 +974,34 @@ func c10Gen(r *rand.Rand) c10Input {
 		}
 		in.Scripts = append(in.Scripts, s)
 	}
+	if in.Client == "http" {
+		// the scripts become HTTP exchanges; with a deadline ahead some request meets a server that never answers
+		conv := func(a c10Ans) c10Ans {
+			if a.Ver != 0 {
+				a.HTTP = "200"
+			} else {
+				a.HTTP, a.Err = []string{"404", "403", "500", "500", "garbage", "304"}[r.IntN(6)], ""
+			}
+			if r.IntN(8) == 0 {
+				a.LatMs = c10Pick(r, []int64{2, 40, 700, 1300, 3000})
+			}
+			return a
+		}
+		for i := range in.Scripts {
+			for j := range in.Scripts[i].Seq {
+				in.Scripts[i].Seq[j] = conv(in.Scripts[i].Seq[j])
+			}
+			in.Scripts[i].Tail = conv(in.Scripts[i].Tail)
+		}
+		if in.DeadlineUs >= 0 && len(in.Scripts) > 0 && r.IntN(3) != 0 {
+			sc := &in.Scripts[r.IntN(len(in.Scripts))]
+			if k := r.IntN(len(sc.Seq) + 1); k < len(sc.Seq) {
+				sc.Seq[k] = c10Ans{HTTP: "hang"}
+			} else {
+				sc.Tail = c10Ans{HTTP: "hang"}
+			}
+		}
+	}
 	if in.Client == "file" && in.DeadlineUs < 0 {
 		// a file client must fail at once; the deadline only bounds a store that would keep retrying
 		in.DeadlineUs = 10000500
@@ -872,7 +1024,7 @@ func c10Gen(r *rand.Rand) c10Input {
 		}
 	} else {
 		for _, nm := range c10Distinct(known) {
-			if in.Struct && strings.HasPrefix(nm, c10Prefix+"/") {
+			if in.Struct && contains(c10StructNames(in), nm) {
 				continue
 			}
 			switch r.IntN(12) {
@@ -908,6 +1060,22 @@ func contains(xs []string, x string) bool {
 
 func c10Tags(in c10Input, obs c10Obs) []string {
 	tags := []string{"client=" + in.Client, "cache=" + in.Cache, "outcome=" + obs.Class}
+	for _, sc := range in.Scripts {
+		for _, x := range append(append([]c10Ans(nil), sc.Seq...), sc.Tail) {
+			if x.HTTP == "hang" {
+				tags = append(tags, "http-hang-scripted")
+			}
+		}
+	}
+	if obs.Class == "err" && in.DeadlineUs > 0 && len(obs.Reqs) > 0 {
+		last := obs.Reqs[len(obs.Reqs)-1]
+		switch {
+		case last.Te == obs.T && last.Ts < last.Te:
+			tags = append(tags, in.Client+":deadline-cut-a-request")
+		case last.Ts == obs.T:
+			tags = append(tags, in.Client+":deadline-in-a-wait")
+		}
+	}
 	if in.Cache == "typeerr" {
 		for i, e := range in.CacheDoc {
 			if e.Kind != "ok" {
